@@ -175,9 +175,9 @@ let () =
            let hi = if lb >= 62 then max_int else 1 lsl lb in
            let lo = if lb = 0 then 0 else 1 lsl (lb - 1) in
            (* runtime/metrics counts small objects only when their span is flushed: the lower bound is checked for
-              large tables only (objects above 32 KiB are counted at once), and the upper bound has 1 MiB of slack for
+              large tables only (objects above 32 KiB are counted at once), and the upper bound allows append's growth (up to ~5x the final size in total) and 1 MiB of slack for
               small objects of earlier jobs that are accounted late *)
-           let alloc_ok = (al < 131072 || hi >= al / 2) && lo <= 4 * al + 64 * len + 1048576 in
+           let alloc_ok = (al < 131072 || hi >= al / 2) && lo <= 8 * al + 64 * len + 1048576 in
            if cls_ok && cnt_ok && alloc_ok then Printf.printf "OK %s\n" id
            else Printf.printf "MISMATCH %s count %s model class=%s count=%d alloc=%d iters=%d (class %b count %b alloc %b)\n"
                id nm mcls (int_of_n (o_count o)) al (int_of_n (o_iters o)) cls_ok cnt_ok alloc_ok
